@@ -316,7 +316,7 @@ struct ThreadLog
     int len;
     int ops_done;
 };
-static ThreadLog tlog[MAXT];
+static ThreadLog *tlog; // the current case's logs (each case has its own, so that threads left behind by a deadlock never share memory with a later case)
 NOTSAN static int copy_log(int t, char *dst)
 {
     int n = tlog[t].len;
@@ -337,11 +337,12 @@ struct Case
     std::vector<std::vector<Op>> prog;
     igris::dlist_base *head;
     igris::safe_queue<long> *q;
+    ThreadLog log[MAXT];
 };
 
-static void log_add(int t, const char *fmt, long v)
+static void log_add(Case *c, int t, const char *fmt, long v)
 {
-    ThreadLog &l = tlog[t];
+    ThreadLog &l = c->log[t];
     l.len += snprintf(l.text + l.len, sizeof l.text - l.len, fmt, v);
 }
 
@@ -358,7 +359,7 @@ static void thread_main(Case *c, int t)
         case 'U': system_unlock(); break;
         case 'S':
             saved = system_lock_save();
-            log_add(t, "s%ld,", saved.count);
+            log_add(c, t, "s%ld,", saved.count);
             // oracle: after releasing every level this thread holds nothing
             if (syslock_counter() != 0)
             {
@@ -373,18 +374,18 @@ static void thread_main(Case *c, int t)
             void *fut = nullptr;
             wait_current_schedee(c->head, (int)op.v, &fut);
             event_dead(t);
-            log_add(t, "w%ld,", (long)(intptr_t)fut);
+            log_add(c, t, "w%ld,", (long)(intptr_t)fut);
             break;
         }
         case 'O': unwait_one(c->head, op.v); break;
         case 'A': unwait_all(c->head, op.v); break;
         case 'P': c->q->push(op.v); break;
-        case 'G': log_add(t, "g%ld,", c->q->pop()); break;
-        case 'Z': log_add(t, "z%ld,", (long)c->q->size()); break;
+        case 'G': log_add(c, t, "g%ld,", c->q->pop()); break;
+        case 'Z': log_add(c, t, "z%ld,", (long)c->q->size()); break;
         }
-        tlog[t].ops_done++;
+        c->log[t].ops_done++;
     }
-    log_add(t, "c%ld", (long)syslock_counter());
+    log_add(c, t, "c%ld", (long)syslock_counter());
     my_t = -1;
     mark_done(t);
 }
@@ -440,7 +441,8 @@ static void run_case(const std::vector<std::string> &w, hv::out &o)
     }
     int n = (int)c.prog.size();
     reset_slots(n);
-    memset(tlog, 0, sizeof tlog);
+    memset(c.log, 0, sizeof c.log);
+    tlog = c.log;
     c.head = new igris::dlist_base();
     c.q = new igris::safe_queue<long>();
     for (long x : init)
@@ -717,7 +719,19 @@ static void run_case(const std::vector<std::string> &w, hv::out &o)
     (void)consumed;
     if (hang || multipend || deadlock)
     {
-        worker_must_exit = true; // blocked threads cannot be joined
+        // blocked threads cannot be joined.  Threads that only sleep in the
+        // condition variable of their own (stack) event hold nothing and can
+        // never wake: leave them behind; anything else ends this worker.
+        bool only_sleepers = deadlock;
+        for (int t = 0; t < n; t++)
+        {
+            Slot sl = get_slot(t);
+            if (sl.st == RUNNING && !(sl.hook == 'c' && sl.cnt == 0))
+                only_sleepers = false;
+        }
+        static int leaked = 0;
+        if (!only_sleepers || ++leaked > 150)
+            worker_must_exit = true;
         for (auto &x : th)
             x.detach();
         return;
@@ -745,6 +759,8 @@ static void worker_loop(int in_fd)
             l.pop_back();
         hv::out o;
         run_case(hv::words(l), o);
+        if (worker_must_exit)
+            (void)!write(1, "@@X\n", 4);
         o.emit();
         if (worker_must_exit)
             syscall(SYS_exit_group, 0); // not _exit(): TSan's exit hook sleeps for a second
@@ -803,7 +819,7 @@ static int supervise()
         std::string msg = line + "\n";
         (void)!write(w.to, msg.data(), msg.size());
         std::string result, notes;
-        bool got = false, dead = false;
+        bool got = false, dead = false, exiting = false;
         double deadline = now_s() + 45.0;
         w.ebuf.clear();
         while (!got && !dead)
@@ -832,6 +848,7 @@ static int supervise()
                 std::string l = w.obuf.substr(0, nl);
                 w.obuf.erase(0, nl + 1);
                 if (l.rfind("@@O ", 0) == 0) { if (notes.empty()) notes = l.substr(4); continue; }
+                if (l == "@@X") { exiting = true; continue; }
                 if (std::count(l.begin(), l.end(), '\t') >= 2) { result = l; got = true; break; }
             }
         }
@@ -847,7 +864,7 @@ static int supervise()
             puts(result.c_str());
             fflush(stdout);
             // a worker that announced a deadlock/multipend exits by itself
-            if (result.find("| done |") == std::string::npos)
+            if (exiting)
                 stop_worker(w, false);
             continue;
         }
